@@ -12,8 +12,14 @@
 (* or the cache events (kind "cache").  Because the events are logged      *)
 (* after acquisition and before release, logged ownership intervals lie    *)
 (* inside the real ones: an overlap in the log is an overlap in reality.   *)
+(*   csEnter / csExit   (kind "cs") logged by the harness' own callback of  *)
+(*                      a hook that sits inside a critical section, while  *)
+(*                      the callback keeps the goroutine there: Pool.tla   *)
+(*                      makes the cache lookup/insert ONE atomic step, so  *)
+(*                      the sections of one object must be disjoint        *)
 (* Rules: pool.owner (Pool!OneOwner), pool.clean (Pool!CleanAtScan),       *)
-(* pool.code (Pool!IdleIsFull), cache.bound / cache.consistent.            *)
+(* pool.code (Pool!IdleIsFull), cache.bound / cache.consistent,            *)
+(* cache.atomic.                                                           *)
 (***************************************************************************)
 EXTENDS ObsBase, FiniteSets
 
@@ -36,8 +42,21 @@ RunnerStep(st, e, k) ==
 RECURSIVE FoldR(_,_,_)
 FoldR(ev, k, st) == IF k > Len(ev) THEN st ELSE FoldR(ev, k + 1, RunnerStep(st, ev[k], k))
 
+\* critical sections: state <<goroutine inside or 0, first problem>>
+CsStep(st, e, k) ==
+  LET inside == st[1]  bad == st[2]
+      flag == IF bad = <<>> THEN <<"cache.atomic", k>> ELSE bad
+  IN IF e.ev = "csEnter" THEN (IF inside # 0 THEN <<e.g, flag>> ELSE <<e.g, bad>>)
+     ELSE (IF inside # e.g THEN <<0, flag>> ELSE <<0, bad>>)
+RECURSIVE FoldC(_,_,_)
+FoldC(ev, k, st) == IF k > Len(ev) THEN st ELSE FoldC(ev, k + 1, CsStep(st, ev[k], k))
+
 CheckRec(r) ==
-  IF r.kind = "runner" THEN
+  IF r.kind = "cs" THEN
+    LET fin == FoldC(r.events, 1, <<0, <<>>>>) IN
+    /\ (fin[2] # <<>> => Report("BAD", [id |-> r.id, rule |-> fin[2][1], k |-> fin[2][2], ev |-> r.events[fin[2][2]]]))
+    /\ Report("REC", [id |-> r.id, events |-> Len(r.events)])
+  ELSE IF r.kind = "runner" THEN
     LET fin == FoldR(r.events, 1, <<0, <<>>>>) IN
     /\ (fin[2] # <<>> => Report("BAD", [id |-> r.id, rule |-> fin[2][1], k |-> fin[2][2], ev |-> r.events[fin[2][2]]]))
     /\ Report("REC", [id |-> r.id, events |-> Len(r.events)])
